@@ -799,6 +799,205 @@ def judge_hist(inp, obs, lr):
     return None
 
 
+# ---- sessions: generic defences G1-G4 ------------------------------------------------------------------------
+# G1 fresh-object differential: every answer of an object with a history equals the answer of a fresh object built from the
+#    same labels.  G2 input/output isolation: every array/list/dict passed in is snapshotted and compared afterwards and is
+#    REUSED for later calls; arrays handed out (bilinear_form, cartan_matrix, generator matrices) are overwritten by the
+#    caller; constructors get one-shot iterables, tuples, views.  G3 cross-object independence: the steps of several groups
+#    of the same rank and generator names are interleaved.  G4 dtypes: constructor / Cartan arrays of several dtypes.
+CTORS = X.CTORS
+SKINDS = ["geom", "canon", "diag", "canondiag", "hyp"]
+
+
+def gen_session(rng, n):
+    for _ in range(n):
+        rank = rng.choice([2, 3, 3, 3, 4])
+        members = []
+        for _m in range(rng.choice([2, 3])):
+            M = X.rand_matrix(rng, rank, finite=(2, 9), p_inf=0.25, p_two=0.3)
+            # infinity mostly as a negative number (the slots cartan_matrix lets the caller parametrise)
+            M = [[(rng.choice([-1, -1, -2, 0]) if x <= 0 else x) for x in row] for row in M]
+            M = [[M[i][j] if i <= j else M[j][i] for j in range(rank)] for i in range(rank)]
+            members.append({"M": M, "ctor": rng.choice(CTORS), "style": rng.choice(["alpha", "alphanum"]),
+                            "dvec": [Q.qs(F(rng.randint(1, 5), rng.randint(1, 3))) for _ in range(rank)]})
+        steps = []
+        for _s in range(rng.choice([6, 8, 10])):
+            g = rng.randrange(len(members))
+            M = members[g]["M"]
+            r = rng.random()
+            if r < 0.45:
+                steps.append({"g": g, "a": "rep", "kind": rng.choice(SKINDS), "scribble": rng.random() < 0.3})
+            elif r < 0.65:
+                steps.append({"g": g, "a": "cartan", "scaled": rng.random() < 0.5, "diag": rng.random() < 0.5,
+                              "dtype": rng.choice(["float", "float", "int"]), "scribble": rng.random() < 0.3})
+            elif r < 0.85:
+                par = [[i, j, Q.qs(-F(rng.randint(5, 12), rng.randint(1, 2)))] for i in range(rank) for j in range(rank)
+                       if i != j and M[i][j] < 0 and rng.random() < 0.7]
+                steps.append({"g": g, "a": rng.choice(["vinberg", "cartan_matrix"]), "params": par,
+                              "fmt": rng.choice(["dict", "array"]), "scribble": rng.random() < 0.5})
+            else:
+                steps.append({"g": g, "a": "form", "scribble": True})
+        yield {"rank": rank, "members": members, "steps": steps}
+
+
+_construct = X.construct
+
+
+def _outcome(fn):
+    """('ok', value) or ('GeometryError', None); other exceptions propagate"""
+    try:
+        return "ok", fn()
+    except Exception as e:
+        if type(e).__name__ == "GeometryError":
+            return "GeometryError", None
+        raise
+
+
+def _rep_of(G, kind):
+    return {"geom": lambda: G.geometric_representation(), "canon": lambda: G.canonical_representation(),
+            "diag": lambda: G.geometric_representation(diagonalize=True),
+            "canondiag": lambda: G.canonical_representation(diagonalize=True),
+            "hyp": lambda: G.hyperbolic_rep()}[kind]
+
+
+def run_session(inp):
+    from geometry_tools import coxeter
+    rank = inp["rank"]
+    I = np.eye(rank)
+    work = np.ones((rank, rank), dtype=int)
+    keep, objs = [], []
+    for mem in inp["members"]:
+        G, names = _construct(mem, rank, work, keep)
+        M = mem["M"]
+        B = np.array([[-math.cos(math.pi / m) if m > 0 else -1.0 for m in row] for row in M])
+        d = [float(F(x)) for x in mem["dvec"]]
+        p, neg, z, mn = X.signature(M)
+        objs.append({"G": G, "names": names, "M": M, "B": B, "nondeg": z == 0 and mn >= 0.02, "neg": neg, "p": p,
+                     # the caller's own Cartan arrays, REUSED for every cartan call on this member
+                     "C": {("sym", "float"): 2 * B.copy(), ("scaled", "float"): np.array(_scaled_cartan(B.tolist(), d)),
+                           ("sym", "int"): None, ("scaled", "int"): None},
+                     "P": None})
+    # the caller goes on using its buffers
+    work[...] = 3
+    np.fill_diagonal(work, 1)
+    for obj in keep:
+        if isinstance(obj, np.ndarray):
+            obj[...] = 5
+        else:
+            for row in obj:
+                row[-1] = 5
+    out = []
+
+    def fresh(o):
+        return coxeter.CoxeterGroup(matrix=np.array(o["M"]))
+
+    def gens_of(rep, names):
+        return [np.asarray(rep.generators[g], dtype=float) for g in names]
+
+    def compare(step, o, what, got, ref, clauses=None):
+        rec = {"step": step, "what": what, "M": o["M"]}
+        if got[0] != ref[0]:
+            rec["outcome"] = [got[0], ref[0]]
+        elif got[0] == "ok":
+            a, b = got[1], ref[1]
+            sc = 1 + max(float(np.max(np.abs(x))) for x in b)
+            rec["fresh_diff"] = max(float(np.max(np.abs(x - y))) for x, y in zip(a, b)) / sc
+            if clauses:
+                r = _check_rep(clauses, a, [[(m if m > 0 else 0) for m in row] for row in o["M"]], o["B"],
+                               ([-1.0] * o["neg"] + [1.0] * o["p"]) if o["nondeg"] else None)
+                rec.update({k: r[k] for k in ("invol", "braid", "form", "scale")})
+        out.append(rec)
+
+    alpha = ["abcdefgh"[i] for i in range(rank)]
+    for si, st in enumerate(inp["steps"]):
+        o = objs[st["g"]]
+        G, names = o["G"], o["names"]
+        if st["a"] == "rep":
+            kind = st["kind"]
+            if kind in ("diag", "canondiag") and not o["nondeg"]:
+                continue
+            if kind == "hyp" and not (o["nondeg"] and o["neg"] == 1):
+                continue
+            got = _outcome(lambda: gens_of(_rep_of(G, kind)(), names))
+            ref = _outcome(lambda: gens_of(_rep_of(fresh(o), kind)(), alpha))
+            compare(si, o, kind, got, ref, clauses=kind if kind in ("geom", "diag", "hyp") else "other")
+            if st["scribble"] and got[0] == "ok":
+                # the caller overwrites what it was handed: a second request must not see that
+                rep = _rep_of(G, kind)()
+                for g in names:
+                    rep.generators[g][...] = 7.0
+                got2 = _outcome(lambda: gens_of(_rep_of(G, kind)(), names))
+                compare(si, o, kind + " after overwriting the returned matrices", got2, ref)
+        elif st["a"] == "cartan":
+            key = ("scaled" if st["scaled"] else "sym", "float")
+            C = o["C"][key]
+            pristine = (2 * o["B"]) if key[0] == "sym" else np.array(_scaled_cartan(o["B"].tolist(), [float(F(x)) for x in inp["members"][st["g"]]["dvec"]]))
+            if st["dtype"] == "int" and all(abs(x - round(x)) < 1e-12 for x in pristine.reshape(-1)):
+                C = np.rint(pristine).astype(int)        # an integer array where the Cartan matrix is integral
+            before = np.array(C, dtype=float).copy()
+            got = _outcome(lambda: gens_of(G.cartan_representation(C, diagonalize=st["diag"]), names))
+            changed = float(np.max(np.abs(np.array(C, dtype=float) - before)))
+            ref = _outcome(lambda: gens_of(fresh(o).cartan_representation(before.copy(), diagonalize=st["diag"]), alpha))
+            compare(si, o, "cartan" + ("+diagonalize" if st["diag"] else ""), got, ref, clauses="other")
+            out[-1]["input_changed"] = changed
+        elif st["a"] in ("vinberg", "cartan_matrix"):
+            if st["fmt"] == "dict":
+                par = {(i, j): float(F(v)) for i, j, v in st["params"]}
+                snap = dict(par)
+            else:
+                par = np.zeros((rank, rank))
+                for i, j, v in st["params"]:
+                    par[i, j] = float(F(v))
+                snap = par.copy()
+            if st["a"] == "vinberg":
+                got = _outcome(lambda: gens_of(G.tits_vinberg_rep(par), names))
+                ref = _outcome(lambda: gens_of(fresh(o).tits_vinberg_rep(dict(snap) if isinstance(snap, dict) else snap.copy()), alpha))
+                compare(si, o, "tits_vinberg_rep", got, ref, clauses="other")
+            else:
+                Cm = G.cartan_matrix(par)
+                Cr = fresh(o).cartan_matrix(dict(snap) if isinstance(snap, dict) else snap.copy())
+                compare(si, o, "cartan_matrix", ("ok", [np.asarray(Cm, dtype=float).copy()]), ("ok", [np.asarray(Cr, dtype=float)]))
+                if st["scribble"]:
+                    Cm[...] = 9.0
+            same = (par == snap) if isinstance(snap, dict) else bool(np.array_equal(par, snap))
+            out[-1]["input_changed"] = 0.0 if same else 1.0
+        else:
+            Bl = G.bilinear_form()
+            compare(si, o, "bilinear_form", ("ok", [np.asarray(Bl, dtype=float).copy()]), ("ok", [o["B"]]))
+            Bl[...] = 0.0
+            compare(si, o, "bilinear_form after overwriting the returned array",
+                    ("ok", [np.asarray(G.bilinear_form(), dtype=float)]), ("ok", [o["B"]]))
+    # closing round: every member once more, geometric (+ hyperbolic where it exists), after the whole history
+    for gi, o in enumerate(objs):
+        got = _outcome(lambda: gens_of(o["G"].geometric_representation(), o["names"]))
+        ref = _outcome(lambda: gens_of(fresh(o).geometric_representation(), alpha))
+        compare("final", o, "geom", got, ref, clauses="geom")
+        if o["nondeg"] and o["neg"] == 1:
+            got = _outcome(lambda: gens_of(o["G"].hyperbolic_rep(), o["names"]))
+            ref = _outcome(lambda: gens_of(fresh(o).hyperbolic_rep(), alpha))
+            compare("final", o, "hyp", got, ref, clauses="hyp")
+    return {"res": out}
+
+
+def judge_session(inp, obs, lr):
+    if "exc" in obs:
+        return {"expected": "a session without exceptions", "observed": obs, "tags": {"exc": obs["exc"], "session": True}}
+    for r in obs["res"]:
+        tags = {"what": r["what"].split(" ")[0], "session": True}
+        if "outcome" in r:
+            return {"expected": "same outcome as a fresh group with the same labels", "observed": r, "tags": {**tags, "defence": "G1-outcome"}}
+        if r.get("input_changed", 0.0) > 0:
+            return {"expected": "arguments passed in are not modified", "observed": r, "tags": {**tags, "defence": "G2-input"}}
+        if r.get("fresh_diff", 0.0) > 1e-9:
+            return {"expected": "same answer as a fresh group built from the same labels (history, aliasing and other objects must "
+                                "not matter)", "observed": r, "tags": {**tags, "defence": "G1-fresh"}}
+        tol = 1e-8 * r.get("scale", 1.0) ** 2
+        if r.get("invol", 0.0) > tol or r.get("braid", 0.0) > tol or r.get("form", 0.0) > tol:
+            return {"expected": "relations / preserved form of the labels the group was constructed from", "observed": r,
+                    "tags": {**tags, "defence": "clauses"}}
+    return None
+
+
 def gen_gens(rng, n):
     for _ in range(n):
         yield gen_case(rng)
@@ -823,6 +1022,12 @@ CLAUSES = [
            what="families of groups built through one work buffer / nested list / diagram list that the caller edits afterwards, "
                 "several representation requests in random order on each object (geometric, canonical, diagonalised, hyperbolic, "
                 "cartan): every result is checked against the labels the group was CONSTRUCTED from"),
+    Clause("session_oracle", "oracle", gen_session, run_session, judge_session, site="coxeter.CoxeterGroup (sessions)",
+           budget={"quick": 300, "thorough": 4000},
+           what="generic defences G1-G4: interleaved steps on 2-3 groups of one rank (representations of every kind, cartan with "
+                "reused float/int arrays, tits_vinberg_rep / cartan_matrix with parameters at negative labels, bilinear_form), "
+                "constructors fed buffers, views, Fortran arrays, tuples, float/int32 arrays, one-shot diagram iterables; inputs "
+                "snapshotted, returned arrays overwritten; every answer compared with a FRESH group and with the clauses"),
     Clause("form_dual_oracle", "oracle", gen_formdual, run_formdual, judge_formdual,
            site="coxeter.CoxeterGroup.geometric_representation/canonical_representation", budget={"quick": 100, "thorough": 3000},
            what="g^T B g = B on generators and words; canonical[w] = inverse transpose of geometric[w]"),
